@@ -357,8 +357,8 @@ fn page_completions<C: Candidate, H: Helper>(
         s.out.write_and_flush(ab.as_str())?;
     }
     s.out.write_and_flush("\n")?;
-    s.layout.end.row = 0; // dirty way to make clear_old_rows do nothing
-    s.layout.cursor.row = 0;
+    s.layout.end = Default::default(); // dirty way to make clear_old_rows do nothing
+    s.layout.cursor = Default::default();
     s.refresh_line()?;
     Ok(None)
 }
